@@ -242,7 +242,7 @@ def run(tier):
             return None
         r['suc'][1] = 1 - r['suc'][1]
         return r
-    common.binding_selftest('c04', 'C04_Data', recs, _corrupt)
+    common.binding_selftest('c04', 'C04_Data', [r for r in recs if r['id'] not in rejects], _corrupt)
     rc = v.finish()
     n_all = sum(r['_nobs'] for r in recs if r['mode'] == 'all')
     n_some = sum(r['_nobs'] for r in recs if r['mode'] == 'some')
